@@ -12,70 +12,102 @@ REGISTRATION = {
             "NDJSON stream vs non-stream aggregation, the streaming tool-call buffer, every point at which the runner can "
             "fail: scheduler/load, Detokenize of a supplied context, Tokenize in chatPrompt, Completion after k chunks, "
             "Tokenize for the context field after the done chunk), the OpenAI ChatWriter/CompleteWriter and "
-            "api.Client.stream, for every chunk list: stream concatenation = non-stream reply, re-splitting does not "
+            "api.Client.stream, and of everything the handlers answer before the runner is started (unload/load replies, "
+            "400 raw+context, 400 tools without template support, handleScheduleError's status by class of scheduler error), "
+            "for every chunk list: stream concatenation = non-stream reply, re-splitting does not "
             "change the reply, streamed and non-streamed requests fail together with the same error, OpenAI content = "
             "native content, exactly one final message or one error, api.Client delivers what is on the wire (with the "
             "scanner's line limit: F17e). Model = code "
-            "is checked on 44 request shapes x every split of a set of outputs x endings x fault points through the real "
+            "is checked on 68 request shapes x every split of a set of outputs x endings x fault points through the real "
             "gin router with a scripted runner, and the property itself is evaluated on the real responses; the "
-            "DoneReason strings are regenerated from the real method on every run and re-checked by decide.",
+            "DoneReason strings, the two fixed error texts and the variant of the tree (which of the repaired behaviours the "
+            "real code shows on the findings' own inputs) are regenerated on every run and re-checked by decide; the check "
+            "fails closed when a branch of the model was not exercised on the real code.",
     "design_ref": "DESIGN.md §5 C17",
     "note": COMMON_NOTE + "Modelled, not verified: parseToolCalls is a parameter whose observed values (real function, "
             "every concatenation of consecutive chunks) are supplied per case (tools equivalence is proved under the "
             "decidable guard PrefixStable; false without it: F17a/b); Tokenize/Detokenize are the harness's (s -> [len s], "
             "fixed text) and a fault makes a method fail for the whole request; JSON encoding/decoding of the bodies and "
             "gin's writer are exercised by the tie, not modelled (the wire length of each line is an input of the client model);  chunks are valid UTF-8 (the runner guarantees it); request "
-            "binding/validation, scheduling beyond 'returns the runner or an error', options (handed to the runner "
+            "binding (JSON decode errors, unknown model), scheduling beyond 'returns the runner or a classified error', options (handed to the runner "
             "untouched; varied by the generator) and client disconnects are out of scope. Theorems about the repaired "
             "variants (proposed_fixes/C17-*.patch) concern code that is not in /repo unless VARIANT says so.",
 }
 
 MODULES = ["OllamaVerif.Properties.C17", "OllamaVerif.Tie.C17"]
-THEOREMS = [
+# Theorems that are statements about the code path /repo runs (variant ⟨toolsStream := false, toolsIndex := true,
+# oaErr := true, incomplete := true⟩ + repaired client — pinned by Tie.C17.tree_variant — or every variant).
+THEOREMS_TREE = [
+    "OllamaVerif.C17.generate_equiv_H",
+    "OllamaVerif.C17.chat_equiv_H",
+    "OllamaVerif.C17.handlers_eq_base",
     "OllamaVerif.C17.generate_equiv",
     "OllamaVerif.C17.generate_resplit",
     "OllamaVerif.C17.generate_error",
     "OllamaVerif.C17.chat_equiv",
     "OllamaVerif.C17.chat_resplit",
     "OllamaVerif.C17.chat_error",
-    "OllamaVerif.C17.tools_equiv_partial",
-    "OllamaVerif.C17.tools_index",
-    "OllamaVerif.C17.one_final_generate",
-    "OllamaVerif.C17.one_final_chat",
-    "OllamaVerif.C17.openai_once_equiv",
-    "OllamaVerif.C17.openai_chat_stream_equiv",
-    "OllamaVerif.C17.openai_cmpl_stream_equiv",
-    "OllamaVerif.C17.openai_stream_one_done",
-    "OllamaVerif.C17.openai_stream_failure_swallowed",
-    "OllamaVerif.C17.openai_stream_failure_reported_fixed",
-    "OllamaVerif.C17.tools_equiv_fixed",
+    "OllamaVerif.C17.chatCallback_calls_exact",
+    "OllamaVerif.C17.tools_index_all",
+    "OllamaVerif.C17.tools_equiv_iff",
+    "OllamaVerif.C17.one_final_all",
+    "OllamaVerif.C17.one_final_every_request",
     "OllamaVerif.C17.one_final_generate_faults",
     "OllamaVerif.C17.generate_outcome_equiv",
     "OllamaVerif.C17.one_final_chat_faults",
     "OllamaVerif.C17.chat_outcome_equiv",
     "OllamaVerif.C17.one_final_generate_fixedD",
     "OllamaVerif.C17.one_final_chat_fixedD",
+    "OllamaVerif.C17.one_final_generate",
+    "OllamaVerif.C17.one_final_chat",
+    "OllamaVerif.C17.runner_protocol_needed",
     "OllamaVerif.C17.tokenize_failure_after_done",
-    "OllamaVerif.C17.tools_equiv_fixed_monotone",
+    "OllamaVerif.C17.prestream_reply_same",
+    "OllamaVerif.C17.prestream_reply_single",
+    "OllamaVerif.C17.unload_before_scheduling",
+    "OllamaVerif.C17.genPreH_plain",
+    "OllamaVerif.C17.chatPreH_plain",
+    "OllamaVerif.C17.generateR_go",
+    "OllamaVerif.C17.chatR_go",
+    "OllamaVerif.C17.oaStreamFixed_eq_pinned",
+    "OllamaVerif.C17.openai_stream_once_agree",
+    "OllamaVerif.C17.openai_finish_agree",
+    "OllamaVerif.C17.finish_reason_on_done_chunk",
+    "OllamaVerif.C17.openai_once_equiv",
+    "OllamaVerif.C17.openai_chat_stream_equiv",
+    "OllamaVerif.C17.openai_cmpl_stream_equiv",
+    "OllamaVerif.C17.openai_chat_stream_finish_usage",
+    "OllamaVerif.C17.openai_cmpl_stream_finish_usage",
+    "OllamaVerif.C17.openai_stream_one_done",
+    "OllamaVerif.C17.openai_stream_failure_reported_fixed",
+    "OllamaVerif.C17.openai_prestream",
     "OllamaVerif.C17.client_generate_equiv",
     "OllamaVerif.C17.client_chat_equiv",
     "OllamaVerif.C17.client_view_fits",
     "OllamaVerif.C17.client_long_line",
-    "OllamaVerif.C17.F17e_client_drops_long_reply",
+    "OllamaVerif.C17.client_one_final",
+    "OllamaVerif.C17.client_every_reply",
+    "OllamaVerif.C17.F17a_split_loses_call",
+    "OllamaVerif.Tie.C17.tree_variant",
     "OllamaVerif.Tie.C17.client_limit_documented",
     "OllamaVerif.Tie.C17.reason_table_complete",
     "OllamaVerif.Tie.C17.reason_table_matches",
     "OllamaVerif.Tie.C17.error_texts_match",
-    "OllamaVerif.C17.chatCallback_calls_exact",
-    "OllamaVerif.C17.tools_index_all",
-    "OllamaVerif.C17.tools_equiv_iff",
-    "OllamaVerif.C17.openai_chat_stream_finish_usage",
-    "OllamaVerif.C17.openai_cmpl_stream_finish_usage",
-    "OllamaVerif.C17.F17a_split_loses_call",
+]
+# Theorems about behaviour /repo no longer shows (defects repaired since: F17b/c/d/e) or does not show yet
+# (proposed_fixes/C17-F17ab.patch); kept as the record of the findings and of what the patch achieves.
+THEOREMS_HISTORICAL_OR_PATCH = [
+    "OllamaVerif.C17.tools_equiv_partial",              # pinned chatOnce (before F17b): calls up to index
+    "OllamaVerif.C17.tools_index",                      # before F17b
+    "OllamaVerif.C17.openai_stream_failure_swallowed",  # before F17c
     "OllamaVerif.C17.F17b_index_mismatch",
     "OllamaVerif.C17.F17c_openai_stream_error_swallowed",
     "OllamaVerif.C17.F17d_silent_end_no_final",
+    "OllamaVerif.C17.F17e_client_drops_long_reply",
+    "OllamaVerif.C17.tools_equiv_fixed",                # C17-F17ab.patch, not in /repo
+    "OllamaVerif.C17.tools_equiv_fixed_monotone",
 ]
+THEOREMS = THEOREMS_TREE + THEOREMS_HISTORICAL_OR_PATCH
 # Which behaviour the oracle models (bit set = that proposed fix is in the tree under test):
 #   1 = proposed_fixes/C17-F17ab.patch (streaming tool path + call numbering), 2 = C17-F17c.patch (in /repo),
 #   4 = C17-F17b.patch alone (non-stream call numbering), 8 = C17-F17d.patch (run without done -> error),
@@ -104,6 +136,12 @@ REQUIRED_COUNTERS = [
     "br_openai_cmpl_chunk_zero_usage", "br_openai_once_finish_tool_calls",
     # api.Client
     "br_client_line_at_or_above_limit", "br_client_returns_error_line", "br_client_delivers_all",
+    # requests answered before the runner is started (genPreH / chatPreH: every outcome, both endpoints; OpenAI and client views)
+    "br_pre_gen_reply_load", "br_pre_gen_reply_unload", "br_pre_chat_reply_load", "br_pre_chat_reply_unload",
+    "br_pre_gen_status_400", "br_pre_gen_status_404", "br_pre_gen_status_499", "br_pre_gen_status_503", "br_pre_gen_status_500",
+    "br_pre_chat_status_400", "br_pre_chat_status_404", "br_pre_chat_status_499", "br_pre_chat_status_503", "br_pre_chat_status_500",
+    "br_pre_openai_stream_of_single_body", "br_pre_openai_once_of_single_body", "br_pre_client_error", "br_pre_client_final_message",
+    "fault_load/cap", "fault_load/cancel", "fault_load/queue", "fault_load/notexist", "groups_with_prestream_shapes",
     # generator classes
     "end_ok", "end_err", "end_silent", "done_chunk_has_content", "tools_early_parse", "tools_whole_parses", "long_groups",
     "conv_last_t", "conv_last_A", "conv_last_a", "conv_last_s", "conv_last_u", "texts_all_splits", "corpus_groups",
@@ -123,7 +161,7 @@ def coverage_required(ctx):
 
 def regenerate(ctx):
     """Tie 1: execute the real llm.DoneReason(i).String() for i = 0..7 and emit the table."""
-    rc, out, outdir = ctx.go_test("./server/", OVERLAY, "^TestVerifC17Table$")
+    rc, out, outdir = ctx.go_test("./server/", OVERLAY, "^TestVerifC17(Table|Variant)$", env={"VERIF_C17_CLIENT_MAX": client_max_line(ctx)})
     rows = []
     if rc == 0:
         for line in open(outdir + "/table.txt"):
@@ -146,6 +184,29 @@ def regenerate(ctx):
             "def tooLongMsg : OllamaVerif.Bytes := " + consts["toolong"] + "\n"
             "end OllamaVerif.Generated.C17\n")
     core.write_generated("OllamaVerif/Generated/C17_Reasons.lean", body)
+    # which repaired behaviours the tree shows, probed on the real code with the findings' own inputs
+    probe = {}
+    if rc == 0 and os.path.exists(outdir + "/variant.txt"):
+        for line in open(outdir + "/variant.txt"):
+            k, b = line.split()
+            probe[k] = b == "1"
+    ctx.coverage["variant_probed"] = probe or "probe failed"
+    lb = lambda k: "true" if probe.get(k) else "false"
+    core.write_generated("OllamaVerif/Generated/C17_Variant.lean",
+                         "-- REGENERATED on every run by vlib/checks/c17.py (TestVerifC17Variant on /repo's working tree). Do not edit.\n"
+                         "import OllamaVerif.Model.Stream\n"
+                         "namespace OllamaVerif.Generated.C17\n"
+                         "/-- which repairs the tree under test shows on the findings' own inputs (F17a, F17b, F17c, F17d) -/\n"
+                         f"def treeVariant : OllamaVerif.Stream.Variant := ⟨{lb('toolsStream')}, {lb('toolsIndex')}, {lb('oaErr')}, {lb('incomplete')}⟩\n"
+                         "/-- api.Client returns the scanner's error for a line it cannot hold (F17e) -/\n"
+                         f"def treeClientFixed : Bool := {lb('clientFixed')}\n"
+                         "end OllamaVerif.Generated.C17\n")
+    if probe:
+        bits = (1 if probe.get("toolsStream") else 0) | (2 if probe.get("oaErr") else 0) | \
+               (4 if probe.get("toolsIndex") and not probe.get("toolsStream") else 0) | (8 if probe.get("incomplete") else 0) | \
+               (16 if probe.get("clientFixed") else 0)
+        ctx.coverage["variant_probed_bits"] = bits
+        ctx.coverage["variant_expected_bits"] = int(os.environ.get("VERIF_C17_VARIANT", VARIANT))
 
 
 def client_max_line(ctx):
@@ -179,6 +240,8 @@ def run(ctx):
     regenerate(ctx)
     climit = client_max_line(ctx)
     ctx.lean_check(MODULES, THEOREMS)
+    ctx.coverage["theorems_about_the_tree"] = len(THEOREMS_TREE)
+    ctx.coverage["theorems_historical_or_patch"] = THEOREMS_HISTORICAL_OR_PATCH
     env = {"VERIF_C17_CLIENT_MAX": climit, "VERIF_CORPUS": os.path.join(core.ROOT, "corpus", "C17"), "VERIF_C17_VARIANT": os.environ.get("VERIF_C17_VARIANT", VARIANT), "VERIF_N": ctx.scale(7, 9), "VERIF_TEXTS": ctx.scale(16, 60), "VERIF_SAMPLES": ctx.scale(12, 64)}
     if ctx.replay:
         env["VERIF_REPLAY"] = ctx.replay_line_file()
@@ -192,6 +255,11 @@ def run(ctx):
     if ctx.thorough:
         ctx.leanchecker(MODULES)
     ctx.assumptions += [
+        "llmServer.Completion (llm/server.go, not anchored, not driven) hands the callback content chunks and then either one done "
+        "chunk + nil, an error, or nil without a done chunk (CompletionShape); outside it the handlers give two terminal items "
+        "(runner_protocol_needed); its final message is empty (a content+done runner line is delivered as two callbacks)",
+        "error texts are not the empty string (api.Client and the OpenAI stream writers treat {\"error\":\"\"} as a message)",
+        "model names contain no character that %q escapes (handleScheduleError's not-found text)",
         "runner chunks are valid UTF-8 strings (splits are taken at rune boundaries)",
         "parseToolCalls is deterministic on the generated outputs (no two sibling JSON members both holding calls)",
     ]
@@ -201,7 +269,8 @@ def run(ctx):
              "pieces) x all 2^(n-1) splits up to the tier's n (sampled beyond) x endings (done chunk, done chunk with "
              "content, runner error after k chunks, nil return without done); long outputs (60 KiB .. 600 KiB as one chunk and as "
              "totals, huge tool-call argument); conversations of 1-6 messages over system/user/assistant/assistant+tool_calls/"
-             "tool; tool-call arguments with numbers beyond float64; x 44 request shapes (generate/chat, "
+             "tool; tool-call arguments with numbers beyond float64; x 68 request shapes (24 of them answered before the runner is started: empty prompt / no messages with and "
+             "without keep_alive 0, raw+context, tools on a template without tool support; five classes of scheduler error) (generate/chat, "
              "stream true/false/absent, raw, format, tools, /v1/chat/completions and /v1/completions with stream and "
              "include_usage, api.Client) x fault points outside Completion (load, Detokenize, Tokenize) with request "
              "shapes that reach them (generate with context, chat with earlier turns), options/system/stop varied; "
